@@ -95,6 +95,7 @@ func New(config ...Config) fiber.Handler {
 		c.Locals(handlerKey, handler)
 
 		var token string
+		unsafeMethod := false
 
 		// Action depends on the HTTP method
 		switch c.Method() {
@@ -102,7 +103,8 @@ func New(config ...Config) fiber.Handler {
 			cookieToken := c.Cookies(cfg.CookieName)
 
 			if cookieToken != "" {
-				raw := getRawFromStorage(c, cookieToken, cfg, sessionManager, storageManager)
+				// Safe methods always pass: if the store fails the token is treated as not found
+				raw, _ := getRawFromStorage(c, cookieToken, cfg, sessionManager, storageManager) //nolint:errcheck // see above
 
 				if raw != nil {
 					token = cookieToken // Token is valid, safe to set it
@@ -110,6 +112,7 @@ func New(config ...Config) fiber.Handler {
 			}
 		default:
 			// Assume that anything not defined as 'safe' by RFC7231 needs protection
+			unsafeMethod = true
 
 			// Enforce an origin check for unsafe requests.
 			err := originMatchesHost(c, trustedOrigins, trustedSubOrigins)
@@ -146,7 +149,11 @@ func New(config ...Config) fiber.Handler {
 				return cfg.ErrorHandler(c, ErrTokenInvalid)
 			}
 
-			raw := getRawFromStorage(c, extractedToken, cfg, sessionManager, storageManager)
+			raw, err := getRawFromStorage(c, extractedToken, cfg, sessionManager, storageManager)
+			if err != nil {
+				// Never let an unsafe request through when the token store fails
+				return cfg.ErrorHandler(c, err)
+			}
 
 			if raw == nil {
 				// If token is not in storage, expire the cookie
@@ -156,7 +163,10 @@ func New(config ...Config) fiber.Handler {
 			}
 			if cfg.SingleUseToken {
 				// If token is single use, delete it from storage
-				deleteTokenFromStorage(c, extractedToken, cfg, sessionManager, storageManager)
+				if err := deleteTokenFromStorage(c, extractedToken, cfg, sessionManager, storageManager); err != nil {
+					// The token could not be consumed
+					return cfg.ErrorHandler(c, err)
+				}
 			} else {
 				token = extractedToken // Token is valid, safe to set it
 			}
@@ -169,7 +179,10 @@ func New(config ...Config) fiber.Handler {
 		}
 
 		// Create or extend the token in the storage
-		createOrExtendTokenInStorage(c, token, cfg, sessionManager, storageManager)
+		if err := createOrExtendTokenInStorage(c, token, cfg, sessionManager, storageManager); err != nil && unsafeMethod {
+			// Never let an unsafe request through when the token store fails
+			return cfg.ErrorHandler(c, err)
+		}
 
 		// Update the CSRF cookie
 		updateCSRFCookie(c, cfg, token)
@@ -207,7 +220,7 @@ func HandlerFromContext(c fiber.Ctx) *Handler {
 
 // getRawFromStorage returns the raw value from the storage for the given token
 // returns nil if the token does not exist, is expired or is invalid
-func getRawFromStorage(c fiber.Ctx, token string, cfg Config, sessionManager *sessionManager, storageManager *storageManager) []byte {
+func getRawFromStorage(c fiber.Ctx, token string, cfg Config, sessionManager *sessionManager, storageManager *storageManager) ([]byte, error) {
 	if cfg.Session != nil {
 		return sessionManager.getRaw(c, token, dummyValue)
 	}
@@ -215,20 +228,18 @@ func getRawFromStorage(c fiber.Ctx, token string, cfg Config, sessionManager *se
 }
 
 // createOrExtendTokenInStorage creates or extends the token in the storage
-func createOrExtendTokenInStorage(c fiber.Ctx, token string, cfg Config, sessionManager *sessionManager, storageManager *storageManager) {
+func createOrExtendTokenInStorage(c fiber.Ctx, token string, cfg Config, sessionManager *sessionManager, storageManager *storageManager) error {
 	if cfg.Session != nil {
-		sessionManager.setRaw(c, token, dummyValue, cfg.IdleTimeout)
-	} else {
-		storageManager.setRaw(token, dummyValue, cfg.IdleTimeout)
+		return sessionManager.setRaw(c, token, dummyValue, cfg.IdleTimeout)
 	}
+	return storageManager.setRaw(token, dummyValue, cfg.IdleTimeout)
 }
 
-func deleteTokenFromStorage(c fiber.Ctx, token string, cfg Config, sessionManager *sessionManager, storageManager *storageManager) {
+func deleteTokenFromStorage(c fiber.Ctx, token string, cfg Config, sessionManager *sessionManager, storageManager *storageManager) error {
 	if cfg.Session != nil {
-		sessionManager.delRaw(c)
-	} else {
-		storageManager.delRaw(token)
+		return sessionManager.delRaw(c)
 	}
+	return storageManager.delRaw(token)
 }
 
 // Update CSRF cookie
@@ -267,7 +278,9 @@ func (handler *Handler) DeleteToken(c fiber.Ctx) error {
 		return handler.config.ErrorHandler(c, ErrTokenNotFound)
 	}
 	// Remove the token from storage
-	deleteTokenFromStorage(c, cookieToken, handler.config, handler.sessionManager, handler.storageManager)
+	if err := deleteTokenFromStorage(c, cookieToken, handler.config, handler.sessionManager, handler.storageManager); err != nil {
+		return handler.config.ErrorHandler(c, err)
+	}
 	// Expire the cookie
 	expireCSRFCookie(c, handler.config)
 	return nil
